@@ -318,5 +318,5 @@ def invariance_cases(draw, tier):
 SUBS = [
     Sub(name='invariance', kind='hyp', run=run, strategy=invariance_cases,
         rule='hopping systems with framework species in all cells; bundle = states, inner states, events, jumps, both matrices, jump diffusivity, collective counts and pairs, species and per-state RDFs, tracer metrics, density volume, free-energy grid, optimal-path cost; compared under the induced relabelling / grid roll',
-        n={'quick': 60, 'thorough': 1200}, shards={'quick': 16, 'thorough': 16}),
+        n={'quick': 110, 'thorough': 1500}, shards={'quick': 16, 'thorough': 16}),
 ]
